@@ -836,7 +836,14 @@ def read_aas_json_file_into(object_store: model.AbstractObjectStore, file: PathO
 
     # read, parse and convert JSON file
     with cm as fp:
-        data = json.load(fp, cls=decoder_)
+        try:
+            data = json.load(fp, cls=decoder_)
+        except RecursionError as e:
+            # a well-formed document that is nested deeper than the interpreter follows
+            if not decoder_.failsafe:
+                raise ValueError("The JSON document is nested too deeply to be read") from e
+            logger.error("The JSON document is nested too deeply to be read; skipping it...")
+            return ret
 
     for name, expected_type in (('assetAdministrationShells', model.AssetAdministrationShell),
                                 ('submodels', model.Submodel),
